@@ -81,6 +81,11 @@ def encode(g, fmt, api):
     return g.encode_as(API_NAME[fmt]) if api == "encode_as" else g.to_xarray(fmt)
 
 
+def PTOL(m):
+    """Position tolerance of the round trip: a source with single-precision coordinates is re-encoded in single precision."""
+    return 1e-6 if m.desc.get("float32") else 1e-9
+
+
 def faces_multiset_match(grid, m, tol=1e-9):
     rings = ux.grid_face_rings(grid)
     if len(rings) != m.n_face:
@@ -198,9 +203,9 @@ def run_case(ctx, case):
         else:
             g2 = U.open_grid(ds)
         if case["fmt"] == "exodus":
-            ok, why = faces_multiset_match(g2, m)
+            ok, why = faces_multiset_match(g2, m, tol=PTOL(m))
         else:
-            ok, why = ux.faces_match(g2, m)
+            ok, why = ux.faces_match(g2, m, tol=PTOL(m))
         ctx.check("roundtrip_faces", ok, dict(sigm, why=(why or {}).get("why", ""), via_file=bool(case["via_file"] and wrote)), {"why": why, "materialised": done, "mesh": case["mesh"]})
         # second generation: the grid that was read back is a grid like any other - encode IT (any format), write, read
         if ok:
@@ -215,9 +220,9 @@ def run_case(ctx, case):
                         ctx.check("writable", True)
                         g3 = U.open_grid(path2 if rng.random() < 0.5 else ds2)
                         if "exodus" in (fmt2, case["fmt"]):
-                            ok3, why3 = faces_multiset_match(g3, m)
+                            ok3, why3 = faces_multiset_match(g3, m, tol=PTOL(m))
                         else:
-                            ok3, why3 = ux.faces_match(g3, m)
+                            ok3, why3 = ux.faces_match(g3, m, tol=PTOL(m))
                         ctx.check("roundtrip_faces", ok3, dict(sig2, why=(why3 or {}).get("why", "")), {"why": why3, "mesh": case["mesh"]})
                     except Exception as e:
                         ctx.check("writable", False, dict(sig2, exc=type(e).__name__), {"exc": repr(e)[:400], "mesh": case["mesh"]})
